@@ -68,3 +68,56 @@ fn c12_key_tag_matches_rfc4034_8() {
 fn c12_key_tag_matches_rfc4034_16() {
     key_tag_n::<16>()
 }
+
+use domain::base::name::{Name, ToName};
+
+fn label_count<const L1: usize, const L2: usize, const L3: usize>() {
+    // flat name with up to three non-root labels of concrete lengths (0 = absent), symbolic content
+    let c: [u8; 6] = kani::any();
+    let mut w = [0u8; 12];
+    let mut n = 0;
+    let mut labels = 0u8;
+    let lens = [L1, L2, L3];
+    let mut k = 0;
+    let mut ci = 0;
+    while k < 3 {
+        if lens[k] > 0 {
+            w[n] = lens[k] as u8;
+            n += 1;
+            let mut i = 0;
+            while i < lens[k] {
+                w[n] = c[ci];
+                ci += 1;
+                n += 1;
+                i += 1;
+            }
+            labels += 1;
+        }
+        k += 1;
+    }
+    w[n] = 0;
+    n += 1;
+    let name = Name::from_octets(&w[..n]).unwrap();
+    let wildcard = L1 == 1 && c[0] == b'*';
+    let want = if wildcard { labels - 1 } else { labels };
+    assert!(name.rrsig_label_count() == want);
+    kani::cover!(wildcard, "wildcard owner");
+}
+
+// @funcs: ToName::rrsig_label_count, Label::is_wildcard, NameIter
+// @bound: flat names with label structure (1,1,2) and symbolic content (first label may be '*'): RRSIG Labels = number of labels without root and without a leading asterisk label (RFC 4034 3.1.3)
+#[kani::proof]
+#[kani::unwind(8)]
+fn c12_rrsig_label_count_112() {
+    label_count::<1, 1, 2>()
+}
+
+// @funcs: ToName::rrsig_label_count
+// @bound: label structure (1) - i.e. "*." or "x." - and the root name
+#[kani::proof]
+#[kani::unwind(8)]
+fn c12_rrsig_label_count_1_and_root() {
+    label_count::<1, 0, 0>();
+    let root = Name::<&[u8]>::from_octets(&[0u8][..]).unwrap();
+    assert!(root.rrsig_label_count() == 0);
+}
